@@ -5,7 +5,8 @@ import fcntl, hashlib, json, os, random, re, shutil, subprocess, sys, time
 
 VERIF = os.path.dirname(os.path.dirname(os.path.abspath(__file__)))
 REPO = os.environ.get('VERIF_REPO', '/repo')
-WORK = os.path.join(VERIF, '.work')
+WORK = os.environ.get('VERIF_WORK') or os.path.join(VERIF, '.work')
+OUTDIR = os.environ.get('VERIF_OUT') or VERIF      # evidence/ and replays/ are written below this directory
 COQ = os.path.join(VERIF, 'coq')
 NODE22 = None
 for cand in ['/root/.nvm/versions/node/v22.22.2/bin/node']:
@@ -78,7 +79,12 @@ def build_impl():
             # drop builds of other source states (disk is limited)
             for d in os.listdir(WORK) if os.path.isdir(WORK) else []:
                 if (d.startswith('impl-') or d.startswith('i6-')) and not d.endswith(hsh):
-                    shutil.rmtree(os.path.join(WORK, d), ignore_errors=True)
+                    try:
+                        old = time.time() - os.path.getmtime(os.path.join(WORK, d)) > 1800
+                    except OSError:
+                        old = False
+                    if old:
+                        shutil.rmtree(os.path.join(WORK, d), ignore_errors=True)
             os.makedirs(bindir, exist_ok=True)
             hdir = os.path.join(bindir, 'harness')
             shutil.rmtree(hdir, ignore_errors=True)
@@ -331,7 +337,7 @@ def match_known(prop, case):
 
 
 def write_replay(prop, case):
-    d = os.path.join(VERIF, 'replays', prop)
+    d = os.path.join(OUTDIR, 'replays', prop)
     os.makedirs(d, exist_ok=True)
     blob = json.dumps(case, sort_keys=True, indent=1)
     name = hashlib.sha256(blob.encode()).hexdigest()[:12] + '.json'
@@ -341,7 +347,7 @@ def write_replay(prop, case):
 
 
 def write_evidence(prop, ev):
-    d = os.path.join(VERIF, 'evidence')
+    d = os.path.join(OUTDIR, 'evidence')
     os.makedirs(d, exist_ok=True)
     open(os.path.join(d, prop + '.json'), 'w').write(json.dumps(ev, indent=1, sort_keys=True))
 
